@@ -216,3 +216,75 @@ class Sign(Contract):
     ensures = handler_clauses("sign") + [rejection_sends_nothing, authorized_needs_auth, unauthorized_message,
                                          success_iff_device_signed, signature_verbatim, named_causes]
     raises = handler_raises()
+
+
+# ---- heartbeats ------------------------------------------------------------------------------------------
+REQ_UD = JSON_
+
+
+def hb_fields(result, g, old):
+    if len(result) == 2:
+        r = result[1]
+        n = len(g.resps)
+        return result[0] == 0
+    return result[0] != 0
+
+
+@contract("ledger/protocol.py", "HSM2ProtocolLedger._signer_heartbeat", serves=ALLH)
+class SignerHeartbeatHandler(Contract):
+    self_spec = PROTO
+    params = dict(request=JSON_)
+    modifies_self = dict(_comm_issue=BOOL_)
+
+    def validated(request):
+        return (jtag(request) == 6 and jhas(request, "udValue") and jtag(request["udValue"]) == 4
+                and is_hex(jstr(request["udValue"])) and len(unhex(jstr(request["udValue"]))) == 16)
+    requires = [validated]
+
+    @only("C13")
+    def fields_verbatim(result, request, g, old):
+        """pubKey / message / tweak / signature are the answers to ops 5 / 3 / 4 / 2 of command 0x60"""
+        if len(result) == 2:
+            r = result[1]
+            n = len(g.resps)
+            m = len(g.log)
+            return (result[0] == 0 and n >= 5 and m >= 5
+                    and g.log[m - 5] == apdu_of(0x60, bytes([1]) + unhex(jstr(request["udValue"])))
+                    and g.log[m - 4] == apdu_of(0x60, bytes([2])) and g.log[m - 3] == apdu_of(0x60, bytes([3]))
+                    and g.log[m - 2] == apdu_of(0x60, bytes([4])) and g.log[m - 1] == apdu_of(0x60, bytes([5]))
+                    and r["pubKey"] == hexs(g.resps[n - 1][3:]) and r["message"] == hexs(g.resps[n - 3][3:])
+                    and r["tweak"] == hexs(g.resps[n - 2][3:])
+                    and r["signature"]["r"] == hexs(der_r(g.resps[n - 4][3:]))
+                    and r["signature"]["s"] == hexs(der_s(g.resps[n - 4][3:])))
+        return result[0] != 0
+    @only("C04")
+    def success_iff_device_answered(result, g, old):
+        return implies(not ci(old), (result[0] == 0) == (ok(g) and g.nx == old.g.nx + 5))
+    ensures = handler_clauses("signerHeartbeat") + [fields_verbatim, success_iff_device_answered]
+    raises = handler_raises()
+    exception_serves = ("C03", "C04")
+
+
+@contract("ledger/protocol.py", "HSM2ProtocolLedger._ui_heartbeat", serves=ALLH)
+class UIHeartbeatHandler(Contract):
+    self_spec = PROTO
+    params = dict(request=JSON_)
+    modifies_self = dict(_comm_issue=BOOL_)
+    max_paths = 6000
+
+    def validated(request):
+        return (jtag(request) == 6 and jhas(request, "udValue") and jtag(request["udValue"]) == 4
+                and is_hex(jstr(request["udValue"])) and len(unhex(jstr(request["udValue"]))) == 32)
+    requires = [validated]
+
+    @only("C13")
+    def starts_by_asking_the_mode(g, old):
+        return implies(not ci(old), g.nx >= old.g.nx + 1 and g.log[len(old.g.log)] == apdu_of(0x43, b""))
+    @only("C13")
+    def success_leaves_signer_mode(result, g, old):
+        """a UI heartbeat taken from signer mode reports success only if the last mode observed is SIGNER"""
+        return implies(not ci(old) and result[0] == 0 and g.resps[len(old.g.resps)][1] == 3,
+                       ok(g) and g.last_cmd == 0x43 and g.last_resp[1] == 3)
+    ensures = handler_clauses("uiHeartbeat") + [starts_by_asking_the_mode, success_leaves_signer_mode]
+    raises = handler_raises()
+    exception_serves = ("C03", "C04")
